@@ -120,12 +120,16 @@ func (r *scopeRegistry) Report(reporter StatsReporter) {
 
 		for name, s := range subscopeBucket.s {
 			verifYield("registry.Report:scope")
+			// n.b. Read the flag before reporting: everything recorded
+			//      before Close() is then covered by this report. Reading
+			//      it afterwards would drop values recorded in between.
+			closed := s.closed.Load()
 			s.report(reporter)
 			verifYield("registry.Report:reported")
 
-			if s.closed.Load() {
+			if closed {
 				verifYield("registry.Report:saw-closed")
-				r.removeWithRLock(subscopeBucket, name)
+				r.removeWithRLock(subscopeBucket, name, s)
 				verifYield("registry.Report:removed")
 				s.clearMetrics()
 			}
@@ -145,12 +149,16 @@ func (r *scopeRegistry) CachedReport() {
 
 		for name, s := range subscopeBucket.s {
 			verifYield("registry.Report:scope")
+			// n.b. Read the flag before reporting: everything recorded
+			//      before Close() is then covered by this report. Reading
+			//      it afterwards would drop values recorded in between.
+			closed := s.closed.Load()
 			s.cachedReport()
 			verifYield("registry.Report:reported")
 
-			if s.closed.Load() {
+			if closed {
 				verifYield("registry.Report:saw-closed")
-				r.removeWithRLock(subscopeBucket, name)
+				r.removeWithRLock(subscopeBucket, name, s)
 				verifYield("registry.Report:removed")
 				s.clearMetrics()
 			}
@@ -222,8 +230,8 @@ func (r *scopeRegistry) Subscope(parent *scope, prefix string, tags map[string]s
 	// If a scope was found above but we didn't return, we need to remove the
 	// scope from both keys.
 	if ok {
-		r.removeWithRLock(subscopeBucket, unsanitizedKey)
-		r.removeWithRLock(subscopeBucket, sanitizedKey)
+		r.removeWithRLock(subscopeBucket, unsanitizedKey, s)
+		r.removeWithRLock(subscopeBucket, sanitizedKey, s)
 		verifYield("registry.Subscope:removed-closed")
 		s.clearMetrics()
 	}
@@ -308,9 +316,12 @@ func (r *scopeRegistry) purgeIfRootClosed() {
 	}
 }
 
-func (r *scopeRegistry) removeWithRLock(subscopeBucket *scopeBucket, key string) {
+func (r *scopeRegistry) removeWithRLock(subscopeBucket *scopeBucket, key string, s *scope) {
 	// n.b. This function must lock the registry for writing and return it to an
 	//      RLocked state prior to exiting. Defer order is important (LIFO).
+	//      The read lock is dropped in between, so by the time the write lock
+	//      is held the key may already belong to a fresh scope that replaced
+	//      s: only remove the entry if it still is s.
 	subscopeBucket.mu.RUnlock()
 	verifYield("registry.remove:runlocked")
 	defer subscopeBucket.mu.RLock()
@@ -318,7 +329,9 @@ func (r *scopeRegistry) removeWithRLock(subscopeBucket *scopeBucket, key string)
 	verifLock(&subscopeBucket.mu, "registry.remove:lock")
 	subscopeBucket.mu.Lock()
 	defer subscopeBucket.mu.Unlock()
-	delete(subscopeBucket.s, key)
+	if curr, ok := subscopeBucket.s[key]; ok && curr == s {
+		delete(subscopeBucket.s, key)
+	}
 }
 
 // Records internal Metrics' cardinalities.
